@@ -3,7 +3,7 @@
 //   req  <hex message> <cuts> <read sizes>          parse a request,  then read the body with the given read() sizes (cyclic)
 //   resp <hex message> <cuts> <read sizes> [HEAD]   parse a response (optionally to a HEAD request)
 //   wr chunked|len|none <piece sizes, '+' = writev of the next two> -> wire=<hex>   build a response with the library's writer
-// output: rc=<receive_header rc> [start=<...> hdr=<k:v|...> body=<hex> end=<last read rc> recvs=<n>]
+// output: rc=<receive_header rc> [start=<...> hdr=<k:v|...> body=<hex> end=<last read rc> recvs=<n> hend=<offset where the header was found to end>]
 #define protected public
 #define private public
 #include <photon/net/http/message.h>
@@ -32,13 +32,13 @@ static std::vector<size_t> nums(const std::string& s) { std::vector<size_t> v; i
 
 static const long STEP_LIMIT = 100000;
 struct FragStream : public ISocketStream {
-    std::deque<std::string> frags; long recvs = 0; std::string written; bool closed = false;
+    std::deque<std::string> frags; long recvs = 0; size_t delivered = 0; std::string written; bool closed = false;
     ssize_t recv(void* buf, size_t count, int = 0) override {
         if (++recvs > STEP_LIMIT) { printf("rc=LOOP\n"); fflush(stdout); _exit(3); }
         while (!frags.empty() && frags.front().empty()) frags.pop_front();
         if (frags.empty() || closed || count == 0) return 0;
         size_t n = std::min(count, frags.front().size());
-        memcpy(buf, frags.front().data(), n); frags.front().erase(0, n);
+        memcpy(buf, frags.front().data(), n); frags.front().erase(0, n); delivered += n;
         return n; }
     ssize_t recv(const struct iovec* iov, int cnt, int = 0) override { for (int i = 0; i < cnt; ++i) if (iov[i].iov_len) return recv(iov[i].iov_base, iov[i].iov_len); return 0; }
     ssize_t read(void* buf, size_t count) override { size_t got = 0; while (got < count) { ssize_t r = recv((char*)buf + got, count - got); if (r <= 0) break; got += r; } return got; }
@@ -95,14 +95,16 @@ int main() {
             if (op == "req") {
                 Request r(buf, cap); r.reset(&s, false);
                 int rc = r.receive_header();
+                size_t hend = rc == 0 ? s.delivered - r.partial_body().size() : 0;     // where the header was found to end, in bytes received
                 printf("rc=%d", rc);
-                if (rc == 0) { printf(" start=%s,%s,%s", hex(std::string(verbstr[r.verb()])).c_str(), hex(std::string(r.target())).c_str(), hex(std::string(r.version())).c_str()); print_headers(r); read_body(r, s, rs); }
+                if (rc == 0) { printf(" start=%s,%s,%s", hex(std::string(verbstr[r.verb()])).c_str(), hex(std::string(r.target())).c_str(), hex(std::string(r.version())).c_str()); print_headers(r); read_body(r, s, rs); printf(" hend=%zu", hend); }
                 printf("\n");
             } else {
                 Response r(buf, cap); r.reset(buf, cap, false, &s, false, extra == "HEAD" ? Verb::HEAD : Verb::GET);
                 int rc = r.receive_header();
+                size_t hend = rc == 0 ? s.delivered - r.partial_body().size() : 0;
                 printf("rc=%d", rc);
-                if (rc == 0) { printf(" start=%d,%s,%s", (int)r.status_code(), hex(std::string(r.status_message())).c_str(), hex(std::string(r.version())).c_str()); print_headers(r); read_body(r, s, rs); }
+                if (rc == 0) { printf(" start=%d,%s,%s", (int)r.status_code(), hex(std::string(r.status_message())).c_str(), hex(std::string(r.version())).c_str()); print_headers(r); read_body(r, s, rs); printf(" hend=%zu", hend); }
                 printf("\n");
             }
             free(buf);
